@@ -191,6 +191,9 @@ def check_phase(c, ctx, want, m):
     failed_at = next((i for i, e in enumerate(log) if not e['acc']), None)
     if failed_at is None or failed_at > m:
         raise Violation(c, 'invalid commitment: no step of the commitment phase fails', observed=[(e['acc'], e['d']['tce']) for e in log])
+    if log[failed_at]['err'] != R.ERR['WITNESS_PROGRAM_MISMATCH']:
+        raise Violation(c, 'invalid commitment: the failing step reports %r, the error of a commitment that does not hold is %r' % (log[failed_at]['err'], R.ERR['WITNESS_PROGRAM_MISMATCH']),
+                        observed=log[failed_at]['err'], expected=R.ERR['WITNESS_PROGRAM_MISMATCH'])
     for e in log[failed_at:]:
         if e['acc'] or not e['d']['tce'] or e['d']['pc'] != 0 or e['d']['done']:
             raise Violation(c, 'invalid commitment: after the failed check a further step is accepted / the session leaves the commitment phase (accepted=%r, in commitment phase=%r, pc=%r)' % (
